@@ -205,7 +205,8 @@ func H01_step() {
 	ty := tx
 	if p.arity == 2 {
 		// the second child: an equal type (fields permuted) or any other one
-		switch sv.Choice("y-type", 3+thoroughExtra()) {
+		// (all ordered pairs of TC2 types times 31 programs times the values of both exceed the path budget; the thorough tier widens the catalogue, not the pairing)
+		switch sv.Choice("y-type", 3) {
 		case 0:
 			ty = Permuted(tx, "ty")
 		case 1:
@@ -232,8 +233,10 @@ func H01_step() {
 	ConcreteTimes = true
 	NumPool = []float64{1, 2.5}
 	MaxLenQuick = 2
+	StrPoolQuick = true
 	vx := AnyVal(Permuted(tx, "vx"), "x")
 	vy := AnyVal(Permuted(ty, "vy"), "y")
+	StrPoolQuick = false
 	xs := val.List(types.List(vx.Type).List(), 1).List()
 	xs.V[0] = vx
 	o := val.Just(vx.Type, vx)
